@@ -217,3 +217,71 @@ def documents(n, seed_, pool=POOL):
     subset of what the thorough tier explores completely, and known findings can be keyed by document)."""
     idx = range(pool) if n >= pool else sorted(random.Random(seed_).sample(range(pool), n))
     return [("gen/%d" % i, document(i)) for i in idx]
+
+
+# ---- fix families: a trigger of each fix-capable rule inside nested structures, after containers that have already ended ----
+FIX_TRIGGERS = {
+    "md012": ["", "", "and wait."],
+    "md031": ["```text", "code", "```", "and wait."],
+    "md009": ["text   ", "more"],
+    "md010": ["a\ttab here"],
+    "md019": ["", "##  Heading two", "", "text"],
+    "md021": ["", "##  Closed  ##", "", "text"],
+    "md023": ["", " ## Indented", "", "text"],
+    "md030": ["", "-  wide", "-  wide two"],
+    "md007": ["", "   - over", "   - indented"],
+    "md004": ["", "* star", "* star two"],
+    "md005": ["", "- a", " - b"],
+    "md029": ["", "1. one", "1. two", "3. three"],
+    "md035": ["", "***", "", "---", "", "end"],
+    "md046": ["", "    indented code", "", "```text", "fenced", "```", "", "end"],
+    "md048": ["", "~~~text", "a", "~~~", "", "```text", "b", "```", "", "end"],
+    "md037": ["with * spaced emphasis * inside"],
+    "md038": ["with ` spaced code ` inside"],
+    "md039": ["with [ spaced link ](/url) inside"],
+    "md001": ["", "#### deep", "", "text"],
+    "md027": ["", ">  wide quote", ">  again"],
+    "md022": ["## Heading", "text"],
+    "md032": ["- tight list", "text after"],
+}
+FIX_HISTORIES = {
+    "h0": [],
+    "h1": [["Get the tools", "- compiler", "- linker"]],
+    "h2": [["Get the tools", "- compiler", "- linker"], ["Get the sources", "- main repo", "- submodules"]],
+    "h3": [["Quote first", "> quoted", "> text"], ["Then a list", "1. one", "2. two"]],
+    "h4": [["Deep", "- level two", "  - level three", "  - again"]],
+}
+FIX_OUTERS = ("top", "ul", "ol", "bq", "bq-ul")
+
+
+def _wrap(outer, items):
+    """items: list of line lists; the outer container turns each into an item (ul/ol), or all into one quote"""
+    def item(lines, first, pad):
+        return [(first + l if i == 0 else (pad + l if l else "")) for i, l in enumerate(lines)]
+    if outer == "top":
+        out = []
+        for it in items:
+            out += it + [""]
+        return out[:-1]
+    if outer == "ul":
+        return [l for it in items for l in item(it, "- ", "  ")]
+    if outer == "ol":
+        return [l for k, it in enumerate(items) for l in item(it, "%d. " % (k + 1), "   ")]
+    if outer == "bq":
+        return [("> " + l if l else ">") for l in _wrap("top", items)]
+    if outer == "bq-ul":
+        return [("> " + l if l else ">") for l in _wrap("ul", items)]
+    raise ValueError(outer)
+
+
+def fix_families():
+    """fixed list of (name, text): history x outer container x trigger x suffix"""
+    out = []
+    for hn, hist in sorted(FIX_HISTORIES.items()):
+        for outer in FIX_OUTERS:
+            for tn, trig in sorted(FIX_TRIGGERS.items()):
+                for sn, suffix in (("end", []), ("item", [["Done"]])):
+                    items = [list(h) for h in hist] + [["Build it"] + list(trig)] + [list(s) for s in suffix]
+                    lines = ["# Title", ""] + _wrap(outer, items)
+                    out.append(("fixfam/%s/%s/%s/%s" % (hn, outer, tn, sn), "\n".join(lines) + "\n"))
+    return out
